@@ -55,7 +55,7 @@ def rand_cfg(rnd, syntaxes=SYNTAXES, p_opt=.5, with_text=True):
     if with_text and rnd.random() < .15: c['text'] = rnd.choice([['foo', '', 'bar'], 'x\ny', [], ['  '], 'single', ['a>b', '$$', ' *3 '], 'http://emmet.io', 'info@emmet.io', ['www.a.b', 'c@d.e']])
     if rnd.random() < .08: c['maxRepeat'] = rnd.choice([1, 2, 3, 7])
     if rnd.random() < .08: c['context'] = {'name': rnd.choice(['ul', 'p', 'em', 'table', 'div', 'UL'])}
-    if 'context' in c and rnd.random() < .4: c['context']['attributes'] = {'class': rnd.choice(['blk', 'a b', '', 'x__y', 'card card--big'])}
+    if 'context' in c and rnd.random() < .4: c['context']['attributes'] = {'class': rnd.choice(['blk', 'a b', '', 'x__y', 'card card--big', None])}
     if rnd.random() < .06: c['variables'] = {'lang': 'ru', 'foo': 'bar'}
     if rnd.random() < .06: c['snippets'] = rnd.choice([{'x': 'p+q'}, {'btn': 'button.btn[type=button]', 'c': '{<!-- ${0} -->}'}, {'a': 'a.x', 'y': 'y>z'}])
     return c
@@ -82,7 +82,7 @@ def cases(tier, seed, prop):
             for tx in ('http://emmet.io', 'info@emmet.io', 'www.emmet.io', ['http://a.b', 'c@d.e'], 'plain text'):
                 for sy in ('html', 'jsx', 'pug'):
                     out.append({'s': ab, 'c': {'syntax': sy, 'text': tx}, 'g': 'href', 'href': 1})
-        for ab in ('div..{${1}}', 'p..${1}', '..${2:x}', 'div..a${1}', 'div[class="a ${1}"]', '.x[class="${1} b"]', 'p[id="i${1}"]', 'p.a${1}.b', 'ul>li[class="${1:k}"]*2', '#m${2:x}[class=${1}]', 'p[class="${1}"]{t}'):
+        for ab in ('div.[class]', 'a.#.', 'p[class class]', '.[class].', 'div#[id]', 'p[id class].', 'p..${1}', '..${2:x}', 'div..a${1}', 'div[class="a ${1}"]', '.x[class="${1} b"]', 'p[id="i${1}"]', 'p.a${1}.b', 'ul>li[class="${1:k}"]*2', '#m${2:x}[class=${1}]', 'p[class="${1}"]{t}'):
             for sy in ('haml', 'pug', 'slim', 'html', 'jsx', 'vue', 'xsl'):
                 out.append({'s': ab, 'c': {'syntax': sy}, 'g': 'field-in-class'})
         # half-typed input: every prefix of valid abbreviations (open attribute sets, expressions, quotes, text, groups …)
@@ -141,13 +141,35 @@ def hostile_environment():
 def shared_cache(cfg):
     """one `cache` dictionary per distinct configuration (everything but the wrap text), kept for the whole life of the worker process"""
     import json
-    key = json.dumps({k: v for k, v in cfg.items() if k not in ('text', 'cache')}, sort_keys=True, default=lambda f: getattr(f, '__name__', 'callable'))
+    key = json.dumps({k: v for k, v in cfg.items() if k not in ('text', 'cache', 'maxRepeat')}, sort_keys=True, default=lambda f: getattr(f, '__name__', 'callable'))
     return _ENV['caches'].setdefault(key, {})
 
 
 def outcome_cached(ab, cfg):
     """the same call with a `cache` that earlier calls under the same configuration have already used"""
     return outcome(ab, dict(cfg, cache=shared_cache(cfg)))
+
+
+def outcome_rerendered(ab, cfg):
+    """parse once, render the tree under another output syntax first, then under the configuration itself: rendering a tree does not change it, so the
+    second rendering is what expand() gives"""
+    from emmet import markup_abbreviation, stringify_markup
+    from emmet.config import Config
+    from emmet.scanner import ScannerException
+    from emmet.token_scanner import TokenScannerException
+    import copy as _copy
+    try:
+        c = Config(_copy.deepcopy(cfg))
+        if c.type != 'markup': return None
+        tree = markup_abbreviation(ab, c)
+        other = dict(_copy.deepcopy(cfg)); other['syntax'] = 'pug' if c.syntax not in ('pug', 'haml', 'slim') else 'html'
+        try: stringify_markup(tree, Config(other))
+        except Exception: pass
+        return ('ok', stringify_markup(tree, c))
+    except ScannerException as e: return ('scanner', e.pos)
+    except TokenScannerException as e: return ('token', e.pos)
+    except RecursionError: return ('internal', 'RecursionError')
+    except Exception as e: return ('internal', type(e).__name__)
 
 
 def outcome(ab, cfg):
